@@ -30,6 +30,11 @@ check("C25", "E1 sched", "model_checking",
       "12 multi-threaded Elk scenarios run on the real VM with every channel, lock, wait-group, once, goroutine-start and select operation of value/channel_of_value.go, value/{mutex,rwmutex,wait_group,once}.go, vm/once.go and vm/thread.go owned by the scheduler; all schedules with <=2 (thorough 3) preemptions are enumerated and each is checked for exactly-once FIFO delivery, select readiness, close semantics, mutual exclusion, run-once, absence of deadlock and of host panics/fatals; 10 single-threaded misuse sequences must raise Elk errors.",
       "interpreter code between scheduling points runs atomically; unbuffered channels are modelled by verifrt's rendezvous (the real channel is not used for them); timers not modelled")
 
+check("C11", "E1 sched", "model_checking",
+      "stateless schedule exploration (preemption-bounded DFS) of the parallel method/macro body checking phase of the real type checker under a controlled scheduler injected by build overlay",
+      "checker.CheckSource runs under the scheduler for 9 programs with colliding method bodies x MethodCheckConcurrencyLimit {1,2,3,100}; every schedule of concurrent.Foreach's goroutines, semaphore, the diagnostics mutex and concurrent containers (plus statement-level points in diagnostic.go/slice.go/map.go) with <=1 (thorough 2) preemptions is executed on the real checker and compiler, and the sorted diagnostics and the compiled program's behaviour must equal the sequential outcome.",
+      "only the body-checking phase branches; unsynchronised accesses between points (e.g. the Method.Body write/read race seen by go test -race in the design round) are invisible to a cooperative scheduler; per-case wall-clock budget may end a configuration early (exhaustive:false)")
+
 NOT_YET = "check not built yet in this round (planned, see DESIGN.md section 5)"
 NA = {}
 
